@@ -7,6 +7,7 @@ pub mod c05;
 pub mod c06;
 pub mod c07;
 pub mod c10;
+pub mod c11;
 pub mod c12;
 pub mod c13;
 pub mod c14;
@@ -61,6 +62,7 @@ pub fn run(id: &str, tier: Tier) -> Option<Report> {
             finalize_counts(&mut rep);
             rep
         }
+        "C11" => c11::run(tier),
         "C12" => c12::run(tier),
         "C13" => c13::run(tier),
         "C14" => c14::run(tier),
@@ -101,6 +103,7 @@ pub fn replay(id: &str, v: &serde_json::Value) -> i32 {
         }
         "C09" => table::replay_table(v, false, true),
         "C10" => c10::replay(v),
+        "C11" => c11::replay(v),
         "C12" => c12::replay(v),
         "C13" => c13::replay(v),
         "C14" => c14::replay(v),
